@@ -15,83 +15,107 @@ import flow
 
 
 def oracle(c):
+    """the three-way decision (with the reset function and match tracking of the mode, starting every sample
+    from the CONFIGURED vigilance) re-derived from the implementation's own activation / match values"""
     fails = []
     est = T.make_dv(c)
     base = est.base_module
     lb = float(c["lb"])
+    rho_cfg = float(c["k"]["rho"])
 
     def rep(sig, what, i=None):
         return {"signature": f"DualVigilanceART/{sig}", "text": what, "replay": dict(T.summary_v(c), failing_sample=i)}
     train = [o for o in c["ops"] if o["op"] in ("fit", "partial_fit")]
-    if not train or train[0].get("veto"):
-        # with a reset function the decision is checked through the model correspondence only
-        train_rows = []
-    rows = [r for o in train for r in o["X"]]
-    mode, eps = train[0]["mode"], float(train[0]["eps"])
-    if train[0].get("veto"):
+    i = -1
+    X = None
+    for o in train:
+        mode, eps, vs = o["mode"], float(o["eps"]), o.get("veto")
+        strict = mode in ("MT0", "MT~")
+        X = np.array(o["X"], dtype=float)
+        keys, _ = B.row_keys(X)
+        for j, x in enumerate(X):
+            i += 1
+            fresh_fit = (o["op"] == "fit" and j == 0)
+            has_w = (not fresh_fit) and hasattr(base, "W") and len(base.W) > 0
+            nb = len(base.W) if has_w else 0
+            map_before = dict(est.map) if has_w else {}
+            ncl_before = est.n_clusters if has_w else 0
+            exp = exp_text = None
+            if has_w:
+                Tv, Mv = [], []
+                cfg = dict(base.params, rho=rho_cfg)
+                for w in base.W:
+                    t, cache = base.category_choice(x, w, params=cfg)
+                    m, _ = base.match_criterion(x, w, params=cfg, cache=cache)
+                    Tv.append(float(t)); Mv.append(float(m))
+                key = keys[x.tobytes()]
+                vfun = (lambda lab: bool(vs["tbl"][(vs["a"] * key + vs["b"] * lab) % len(vs["tbl"])])) if vs else (lambda lab: True)
+
+                def decide(order):
+                    rho = rho_cfg
+                    for k in order:
+                        if vfun(map_before[k]):
+                            if (Mv[k] > rho) if strict else (Mv[k] >= rho):
+                                return ("absorb", k)
+                            if (Mv[k] > lb) if strict else (Mv[k] >= lb):
+                                return ("split", k)
+                        else:               # vetoed: match tracking of the mode, then go on
+                            if mode == "MT+":
+                                rho = Mv[k] + eps
+                            elif mode == "MT-":
+                                rho = Mv[k] - eps
+                            elif mode == "MT0":
+                                rho = Mv[k]
+                            elif mode == "MT1":
+                                return ("fresh", None)
+                    return ("fresh", None)
+                # the code visits only categories with positive activation; the property says "visits categories"
+                exp = decide(sorted([k for k in range(nb) if Tv[k] > 0], key=lambda k: (-Tv[k], k)))
+                exp_text = decide(sorted(range(nb), key=lambda k: (-Tv[k], k)))
+            veto = B.Veto(est, vs["tbl"], vs["a"], vs["b"], keys) if vs else None
+            try:
+                if fresh_fit:
+                    est.fit(x.reshape(1, -1), match_reset_func=veto, match_tracking=mode, epsilon=eps)
+                else:
+                    est.partial_fit(x.reshape(1, -1), match_reset_func=veto, match_tracking=mode, epsilon=eps)
+            except Exception:
+                return fails
+            lab = int(est.labels_[-1])
+            na = len(base.W)
+            if has_w and exp_text != exp:
+                tk, kk = exp_text
+                ok_text = (tk == "absorb" and na == nb and lab == map_before[kk]) or \
+                          (tk == "split" and na == nb + 1 and lab == map_before[kk]) or (tk == "fresh" and lab == ncl_before)
+                if not ok_text:
+                    fails.append(rep("nonpositive-activation-skipped",
+                                     f"sample {i}: category {kk} (activation <= 0) qualifies ({tk}) but the loop never visits it", i))
+            if has_w:
+                kind, k = exp
+                if kind == "absorb" and not (na == nb and lab == map_before[k]):
+                    fails.append(rep("decision", f"sample {i}: category {k} is the first to pass the (configured, match-tracked) upper vigilance but the sample was not absorbed by it", i)); return fails
+                if kind == "split" and not (na == nb + 1 and lab == map_before[k] and est.map[nb] == map_before[k]):
+                    fails.append(rep("decision", f"sample {i}: category {k} passes only the lower vigilance but no new category with its cluster label was made", i)); return fails
+                if kind == "fresh" and not (na == nb + 1 and lab == ncl_before and est.map[nb] == ncl_before):
+                    fails.append(rep("decision", f"sample {i}: no category passes either threshold but no brand-new cluster label was created", i)); return fails
+            if float(base.params["rho"]) != rho_cfg:
+                fails.append(rep("vigilance-in-force", f"sample {i}: the base module's rho is {float(base.params['rho'])} after the step, configured {rho_cfg}: "
+                                 "later samples are not judged against the upper vigilance", i)); return fails
+            # the map
+            if sorted(est.map.keys()) != list(range(na)):
+                fails.append(rep("map-total", "map keys are not exactly the base categories", i)); return fails
+            vals = sorted(set(est.map.values()))
+            if vals != list(range(est.n_clusters)):
+                fails.append(rep("map-range", f"map values {vals} are not 0..n_clusters-1 (n_clusters={est.n_clusters})", i)); return fails
+            if not (0 <= lab < est.n_clusters):
+                fails.append(rep("label-range", "returned label is not a cluster label", i)); return fails
+            # base categories obey the upper-vigilance bound (Fuzzy: |w| >= rho d) - without match tracking below rho
+            if c["k"]["kind"] == "Fuzzy" and not (vs and mode == "MT-"):
+                d = X.shape[1] // 2
+                for w in base.W:
+                    if np.sum(np.abs(w)) < rho_cfg * d - 1e-9:
+                        fails.append(rep("upper-bound", "a base category exceeds the upper-vigilance size bound", i)); return fails
+    if X is None:
         return fails
-    strict = mode in ("MT0", "MT~")
-    X = np.array(rows, dtype=float)
-    for i, x in enumerate(X):
-        has_w = hasattr(base, "W") and len(base.W) > 0
-        nb = len(base.W) if has_w else 0
-        exp = None
-        if has_w:
-            Tv, Mv = [], []
-            for w in base.W:
-                t, cache = base.category_choice(x, w, params=base.params)
-                m, _ = base.match_criterion(x, w, params=base.params, cache=cache)
-                Tv.append(float(t)); Mv.append(float(m))
-            rho = float(base.params["rho"])
-            def decide(order):
-                for k in order:
-                    up = (Mv[k] > rho) if strict else (Mv[k] >= rho)
-                    lo = (Mv[k] > lb) if strict else (Mv[k] >= lb)
-                    if up:
-                        return ("absorb", k)
-                    if lo:
-                        return ("split", k)
-                return ("fresh", None)
-            # the code visits only categories with positive activation; the property says "visits categories"
-            exp = decide(sorted([k for k in range(nb) if Tv[k] > 0], key=lambda k: (-Tv[k], k)))
-            exp_text = decide(sorted(range(nb), key=lambda k: (-Tv[k], k)))
-        map_before = dict(est.map)
-        ncl_before = est.n_clusters
-        try:
-            est.partial_fit(x.reshape(1, -1), match_tracking=mode, epsilon=eps)
-        except Exception:
-            return fails
-        lab = int(est.labels_[-1])
-        na = len(base.W)
-        if has_w and exp_text != exp:
-            tk, kk = exp_text
-            ok_text = (tk == "absorb" and na == nb and lab == map_before[kk]) or \
-                      (tk == "split" and na == nb + 1 and lab == map_before[kk]) or (tk == "fresh" and lab == ncl_before)
-            if not ok_text:
-                fails.append(rep("nonpositive-activation-skipped",
-                                 f"sample {i}: category {kk} (activation <= 0) qualifies ({tk}) but the loop never visits it", i))
-        if has_w:
-            kind, k = exp
-            if kind == "absorb" and not (na == nb and lab == map_before[k]):
-                fails.append(rep("decision", f"sample {i}: category {k} passes the upper vigilance first but the sample was not absorbed by it", i)); return fails
-            if kind == "split" and not (na == nb + 1 and lab == map_before[k] and est.map[nb] == map_before[k]):
-                fails.append(rep("decision", f"sample {i}: category {k} passes only the lower vigilance but no new category with its cluster label was made", i)); return fails
-            if kind == "fresh" and not (na == nb + 1 and lab == ncl_before and est.map[nb] == ncl_before):
-                fails.append(rep("decision", f"sample {i}: no category passes either threshold but no brand-new cluster label was created", i)); return fails
-        # the map
-        if sorted(est.map.keys()) != list(range(na)):
-            fails.append(rep("map-total", "map keys are not exactly the base categories", i)); return fails
-        vals = sorted(set(est.map.values()))
-        if vals != list(range(est.n_clusters)):
-            fails.append(rep("map-range", f"map values {vals} are not 0..n_clusters-1 (n_clusters={est.n_clusters})", i)); return fails
-        if not (0 <= lab < est.n_clusters):
-            fails.append(rep("label-range", "returned label is not a cluster label", i)); return fails
-        # base categories obey the upper-vigilance bound (Fuzzy: |w| >= rho d)
-        if c["k"]["kind"] == "Fuzzy":
-            d = X.shape[1] // 2
-            for w in base.W:
-                if np.sum(np.abs(w)) < float(c["k"]["rho"]) * d - 1e-9:
-                    fails.append(rep("upper-bound", "a base category exceeds the upper-vigilance size bound", i)); return fails
     try:
         p = est.predict(X)
         if any(not (0 <= int(v) < est.n_clusters) for v in p):
